@@ -149,13 +149,13 @@ func (P *Program) verifyFunc(fn *ssa.Function, fc *FuncContract, mode Mode) *Fun
 	for _, m := range fc.Modifies {
 		fr.modObjs = append(fr.modObjs, env.modItems(m)...)
 	}
-	for _, tn := range strings.Split(fc.Opts["noframe"]+","+fc.Opts["havoc"], ",") {
-		if tn = strings.TrimSpace(tn); tn != "" {
-			if te, err := parseTypeExpr(tn); err == nil {
-				if t := c.resolveType(te, pkg); t != nil {
-					fr.modObjs = append(fr.modObjs, modItem{sortKey: c.sortOf(t), all: true})
-				}
-			}
+	for _, k := range c.optSortKeys(fc.Opts["noframe"]+","+fc.Opts["havoc"], pkg) {
+		fr.modObjs = append(fr.modObjs, modItem{sortKey: k, all: true})
+	}
+	c.trustPre = map[string]bool{}
+	for _, pn := range strings.Split(fc.Opts["trustpre"], ",") {
+		if pn = strings.TrimSpace(pn); pn != "" {
+			c.trustPre[pn] = true
 		}
 	}
 	// vacuity probe: the precondition must be satisfiable
@@ -180,6 +180,10 @@ func (P *Program) verifyFunc(fn *ssa.Function, fc *FuncContract, mode Mode) *Fun
 			c.assumed["definitional abstraction (determinism of "+res.Func+"): "+e.Text] = true
 		}
 		for _, e := range fc.Ensures {
+			if e.Assumed {
+				c.assumed["postcondition ["+e.Label+"] of "+res.Func+" is assumed, not proved (ensures_assumed): "+e.Text] = true
+				continue
+			}
 			v := post.trBool(e.Expr)
 			o := fr.oblige("ensures", e.Label+suffix, propsOr(e.Props, fc.Props), v, e.Text, r.pos)
 			o.Using, o.Extra = c.splitUsing(post, e.Using)
@@ -202,15 +206,9 @@ func (P *Program) verifyFunc(fn *ssa.Function, fc *FuncContract, mode Mode) *Fun
 		}
 		sort.Strings(ks)
 		noframe := map[string]bool{}
-		for _, tn := range strings.Split(fc.Opts["noframe"]+","+fc.Opts["havoc"], ",") {
-			if tn = strings.TrimSpace(tn); tn != "" {
-				if te, err := parseTypeExpr(tn); err == nil {
-					if t := c.resolveType(te, pkg); t != nil {
-						noframe[c.sortOf(t)] = true
-						c.assumed["frame of sort "+tn+" not claimed for "+res.Func+" (opt noframe)"] = true
-					}
-				}
-			}
+		for _, k := range c.optSortKeys(fc.Opts["noframe"]+","+fc.Opts["havoc"], pkg) {
+			noframe[k] = true
+			c.assumed["frame of sort "+k+" not claimed for "+res.Func+" (opt noframe/havoc)"] = true
 		}
 		for _, k := range ks {
 			if noframe[k] {
